@@ -171,6 +171,25 @@ class Proc:
         self.handlers = []
 
 
+class Interrupt(BaseException):
+    """An in-process interruption (signal / KeyboardInterrupt): the sync is abandoned, the process lives on."""
+
+
+class IntRecorder(fsrec.Recorder):
+    """Recorder that raises Interrupt instead of performing mutation number int_at (once)."""
+
+    def __init__(self, root, int_at):
+        super().__init__(root)
+        self.int_at, self.int_event = int_at, None
+
+    def _before(self, op, rp):
+        if self.active and self._inside(rp) and self.int_event is None and self.n_mut + 1 == self.int_at:
+            self.n_mut += 1
+            self.int_event = dict(k=self.n_mut, op=op, rp=rp)
+            raise Interrupt()
+        return super()._before(op, rp)
+
+
 def run(ck):
     use_repo()
     from concurrent.futures import ThreadPoolExecutor
@@ -218,7 +237,7 @@ def run(ck):
     pool = ThreadPoolExecutor(6)
     futs = [(label, want, pool.submit(mc, *args)) for label, args, want in jobs]
 
-    plans = sorted(ck.export("TarSync_Export"), key=lambda p: (p["first"], p["next"]))
+    plans = sorted(ck.export("TarSync_Export"), key=lambda p: (p["obj"], p["first"], p["next"]))
     if {p["first"] for p in plans} - set(REALIZE) - {"crash"} or {p["next"] for p in plans} - set(REALIZE) - {"none"}:
         raise tlc.MachineryError(f"TarSync_Export: fault alphabet not realizable: {plans}")
     _phase("export")
@@ -359,8 +378,74 @@ def run(ck):
                 attempt(real)
                 emit("fault", follow=label, fault=real, t0=t0, **at, **observe())
 
+            def one_object(modes, int_at=None):
+                """ONE syncer object in one process makes the syncs `modes` (the first one interrupted before mutation
+                int_at, if given); the exit handlers run after the last one.  Returns per-sync observations
+                (taken right after the sync; for the last sync after the exit handlers) and the interruption point."""
+                rec = IntRecorder(root, int_at) if int_at else None
+                out = []
+                with Proc() as proc, contextlib.redirect_stdout(io.StringIO()):
+                    syncer = tar_mod.tar_syncer(base, uri)
+                    for n, mode in enumerate(modes):
+                        srv.mode = mode
+                        t0, ok, interrupted = logical_tree(), False, False
+                        try:
+                            if n == 0 and rec is not None:
+                                with rec, Stack(unseen()):
+                                    ok = bool(syncer.sync())
+                            else:
+                                ok = bool(syncer.sync())
+                        except Interrupt:
+                            interrupted = True
+                        except Exception:  # noqa: a failed attempt
+                            ok = False
+                        if n == len(modes) - 1:
+                            proc.exit()
+                        out.append(dict(mode=mode, ok=ok, t0=t0, interrupted=interrupted, **observe()))
+                return out, (rec.int_event if rec is not None else None)
+
+            def emit_history(hist, at, label):
+                for h in hist:
+                    if h["interrupted"]:
+                        continue  # the state after the interruption is the crash state judged by the "fresh" plans
+                    obs = {k_: h[k_] for k_ in ("tree", "etag", "modified")}
+                    if h["mode"] == "good":
+                        emit("recover", follow=label, ok=h["ok"], **at, **obs)
+                    else:
+                        emit("fault", follow=label, fault=h["mode"], t0=h["t0"], **at, **obs)
+
             for plan in plans:
                 first, nxt = plan["first"], plan["next"]
+                if plan["obj"] == "same":
+                    nxts = REALIZE[nxt] if nxt != "none" else [None]
+                    if first == "crash":
+                        k = 0
+                        while True:
+                            k += 1
+                            if ck.quick and nxt != "none" and k not in rename_ks:
+                                if k > n_mut:
+                                    break
+                                continue
+                            stop = False
+                            for real2 in nxts:
+                                fresh(root, setup)
+                                modes = ["good"] + ([real2] if real2 else []) + ["good"]
+                                hist, ie = one_object(modes, int_at=k)
+                                if ie is None:  # k lies beyond the mutations of the sync itself (exit cleanup)
+                                    stop = True
+                                    break
+                                at = dict(kind="interrupt", k=k, at_op=ie["op"], at_path=ie["rp"])
+                                emit_history(hist, at, "same:" + "+".join(modes[1:]))
+                            if stop or k > n_mut:
+                                break
+                    else:
+                        for real1 in REALIZE[first]:
+                            for real2 in nxts:
+                                fresh(root, setup)
+                                modes = [real1] + ([real2] if real2 else []) + ["good"]
+                                hist, _ = one_object(modes)
+                                emit_history(hist, dict(kind="fault"), "same:" + "+".join(modes))
+                    continue
                 if first == "crash":
                     for kind, k in crash_pts:
                         if nxt == "none":
